@@ -139,6 +139,8 @@ const char *shim_static_errtext (int errcode)
     return eav_errstr (&scratch);
 }
 
+int shim_is_special_domain (const char *s, const char *e) { return is_special_domain (s, e); }
+
 int shim_tld_count (void)
 {
     int n = 0;
